@@ -45,6 +45,8 @@ def evaluate(node: ast.AST, env: dict, fold=None):
                 raise Unsupported(f"{key}: {e}")
             if isinstance(v, (int, bool)):
                 return v
+            if isinstance(v, (tuple, list, set, frozenset)) and all(isinstance(x, (int, bool)) for x in v):
+                return tuple(v)
         raise Unsupported(f"unbound name {key}")
     if isinstance(node, ast.UnaryOp):
         v = evaluate(node.operand, env, fold)
@@ -73,6 +75,13 @@ def evaluate(node: ast.AST, env: dict, fold=None):
             if v:
                 return v
         return r
+    if isinstance(node, (ast.Tuple, ast.List, ast.Set)):
+        return tuple(evaluate(e, env, fold) for e in node.elts)
+    if isinstance(node, ast.Compare) and len(node.ops) == 1 and isinstance(node.ops[0], (ast.In, ast.NotIn)):
+        left, right = evaluate(node.left, env, fold), evaluate(node.comparators[0], env, fold)
+        if not isinstance(right, tuple):
+            raise Unsupported(f"membership in a non-tuple `{ast.unparse(node.comparators[0])[:40]}`")
+        return (left in right) if isinstance(node.ops[0], ast.In) else (left not in right)
     if isinstance(node, ast.Compare) and all(type(o) in _CMP for o in node.ops):
         left = evaluate(node.left, env, fold)
         for o, c in zip(node.ops, node.comparators):
@@ -84,3 +93,46 @@ def evaluate(node: ast.AST, env: dict, fold=None):
     if isinstance(node, ast.IfExp):
         return evaluate(node.body if evaluate(node.test, env, fold) else node.orelse, env, fold)
     raise Unsupported(f"unsupported expression `{ast.unparse(node)[:50]}`")
+
+
+class Raised(Exception):
+    """run_block: the block reached a `raise` (args[0] = unparsed exception expression)."""
+
+
+def run_block(stmts, env: dict, fold=None):
+    """Execute a straight-line / branching block of simple statements over `env` (keys: unparsed names and dotted attributes).
+
+    Supported: docstrings, assert (evaluated; failing -> Raised), Assign / AugAssign / AnnAssign to a Name or dotted Attribute, If, Raise (-> Raised),
+    Return (-> ("return", value | None)), Pass.  Anything else -> Unsupported.  Returns ("fall", None) when the block ends normally."""
+    for st in stmts:
+        if isinstance(st, ast.Expr) and isinstance(st.value, ast.Constant):
+            continue
+        if isinstance(st, ast.Pass):
+            continue
+        if isinstance(st, ast.Assert):
+            if not evaluate(st.test, env, fold):
+                raise Raised("AssertionError")
+            continue
+        if isinstance(st, ast.Assign) and len(st.targets) == 1 and isinstance(st.targets[0], (ast.Name, ast.Attribute)):
+            env[ast.unparse(st.targets[0])] = evaluate(st.value, env, fold)
+            continue
+        if isinstance(st, ast.AnnAssign) and st.value is not None and isinstance(st.target, (ast.Name, ast.Attribute)):
+            env[ast.unparse(st.target)] = evaluate(st.value, env, fold)
+            continue
+        if isinstance(st, ast.AugAssign) and isinstance(st.target, (ast.Name, ast.Attribute)) and type(st.op) in _BIN:
+            k = ast.unparse(st.target)
+            if k not in env:
+                raise Unsupported(f"unbound {k}")
+            env[k] = _BIN[type(st.op)](env[k], evaluate(st.value, env, fold))
+            continue
+        if isinstance(st, ast.If):
+            r = run_block(st.body if evaluate(st.test, env, fold) else st.orelse, env, fold)
+            if r[0] != "fall":
+                return r
+            continue
+        if isinstance(st, ast.Raise):
+            raise Raised(ast.unparse(st.exc) if st.exc is not None else "")
+        if isinstance(st, ast.Return):
+            return ("return", None if st.value is None else evaluate(st.value, env, fold))
+        raise Unsupported(f"statement `{ast.unparse(st)[:50]}`")
+    return ("fall", None)
